@@ -35,7 +35,7 @@ Names == {<<97>>, <<US, 97>>, <<97, US>>, <<US, US, 97>>, <<97, US, US>>, <<US, 
           <<US>>, <<US, US>>, <<97>> \o AsyncSuffix, <<97, 49>>}
 
 VARIABLES probe, cache, made
-pvars == <<probe, ifaces, cache, made>>
+pvars == <<probe, avars, cache, made>>
 
 \* interface identities 1..3; 1 and 2 share a name (the key a broken cache might use)
 IfaceName(i) == IF i = 3 THEN "B" ELSE "A"
@@ -61,7 +61,7 @@ Create(i) ==
        THEN UNCHANGED <<cache, made>>
        ELSE /\ made' = Append(made, IfaceMethods(i))
             /\ cache' = [j \in DOMAIN cache \cup {i} |-> IF j = i THEN Len(made) + 1 ELSE cache[j]]
-  /\ UNCHANGED <<probe, ifaces>>
+  /\ UNCHANGED <<probe, avars>>
 
 PNext == \E i \in 1..3 : Create(i)
 PSpec == PInit /\ [][PNext]_pvars
